@@ -23,6 +23,8 @@ def dec(v):
         return v
     if isinstance(v, int):
         return v
+    if isinstance(v, float):
+        return v
     if isinstance(v, str):
         n, d = v.split('/')
         return Fraction(int(n), int(d))
@@ -46,6 +48,8 @@ def kind_of(v):
         return 'bool'
     if isinstance(v, int):
         return 'int'
+    if isinstance(v, float):
+        return 'float'
     if isinstance(v, str):
         return 'Fraction'
     if 'f' in v:
